@@ -27,9 +27,11 @@ def parseNumDesc (s : String) : Option NumDesc :=
   | ["F", f, e] => do pure (.finite (← intList f) (← e.toInt?))
   -- TM / FM: the caller overwrites its digit slices after construction (C14): same Number expected
   | ["TM", f, r, e] => do pure (.test (← intList f) (← intList r) (← e.toInt?))
+  -- TS: the two lists are windows of ONE caller buffer (C13/C14): same Number expected
+  | ["TS", f, r, e] => do pure (.test (← intList f) (← intList r) (← e.toInt?))
   | ["FM", f, e] => do pure (.finite (← intList f) (← e.toInt?))
-  | ["G", l, e, i] => do pure (.gen (← l.toInt?) (← e.toInt?) (i == "1") none)
-  | ["G", l, e, i, f] => do pure (.gen (← l.toInt?) (← e.toInt?) (i == "1") (some (← f.toInt?)))
+  | ["G", l, e, i] => do pure (.gen (← l.toInt?) (← e.toInt?) (i != "0") none)
+  | ["G", l, e, i, f] => do pure (.gen (← l.toInt?) (← e.toInt?) (i != "0") (some (← f.toInt?)))
   | _ => none
 
 /-- pattern: "e" empty, "nil" nil, else '_'-separated ints -/
